@@ -49,7 +49,7 @@ fn forward_scan(na: usize, nb: usize, nc: usize) {
     assert!(!cur.valid(), "role=cursor_exhausted_after_last_entry");
 }
 
-// @vt prop=C28 tier=quick feat=sp fs=600 bound="forward scan (cursor_first + advance) over a 3-leaf chain under an interior root with an EMPTY middle leaf: cell counts (2,0,1) and (0,0,2), arbitrary value bytes" outside="deeper trees; more than 2 cells per leaf; symbolic keys (cursors do not compare keys)" timeout=1800 mem=16
+// @vt prop=C28 tier=quick feat=sp fs=600 bound="forward scan (cursor_first + advance) over a 3-leaf chain under an interior root with an EMPTY middle leaf: cell counts (2,0,1) and (0,0,2), arbitrary value bytes" outside="deeper trees; more than 2 cells per leaf; symbolic keys (cursors do not compare keys)" timeout=1800 mem=16 manual=known_replays/manual_cursor_empty_middle_leaf.rs
 vt_proof_pg! { unwind = 5; fn c28_cursor_scan_empty_middle_leaf() {
     if kani::any() { forward_scan(2, 0, 1) } else { forward_scan(0, 0, 2) }
     kani::cover!(true, "w:reached_end");
@@ -126,7 +126,7 @@ fn insert_with_hint(hint: Option<u32>, kb: u8) {
     assert!(sorted, "role=c28_scan_is_in_key_order_after_hinted_insert");
 }
 
-// @vt prop=C28,C29 tier=quick feat=sp fs=600 bound="BTree::insert with a STALE right-most-leaf hint (page 2, a leaf with right siblings) into a 3-leaf tree under an interior root; new key [0x25,1] or [0x35,1] (concrete; they belong to the 2nd / 3rd leaf), value byte and existing values arbitrary" outside="symbolic keys on this path (routing through the interior page would make the page number symbolic); splits" timeout=1800 mem=16
+// @vt prop=C28,C29 tier=quick feat=sp fs=600 bound="BTree::insert with a STALE right-most-leaf hint (page 2, a leaf with right siblings) into a 3-leaf tree under an interior root; new key [0x25,1] or [0x35,1] (concrete; they belong to the 2nd / 3rd leaf), value byte and existing values arbitrary" outside="symbolic keys on this path (routing through the interior page would make the page number symbolic); splits" timeout=1800 mem=16 manual=known_replays/manual_insert_with_stale_hint.rs
 vt_proof_pg! { unwind = 6; fn c28_insert_with_stale_hint() {
     if kani::any() { insert_with_hint(Some(2), 0x25) } else { insert_with_hint(Some(2), 0x35) }
     kani::cover!(true, "w:reached_end");
@@ -142,3 +142,5 @@ vt_proof_pg! { unwind = 6; fn c28_insert_with_bogus_hints() {
     if kani::any() { insert_with_hint(Some(1), 0x15) } else { insert_with_hint(Some(9), 0x15) }
     kani::cover!(true, "w:reached_end");
 }}
+#[cfg(kani)]
+pub fn replay_insert_with_stale_hint() { insert_with_hint(Some(2), 0x25) }
